@@ -8,15 +8,20 @@ class _TooBig(Exception):
 
 
 class BDD(object):
-    """Reduced ordered binary decision diagrams over predicate atoms; a node
-    is True, False or (atom, low, high) with atoms ordered by their repr --
-    the tuple itself is the canonical form of the boolean function."""
+    """Reduced ordered binary decision diagrams over predicate atoms,
+    hash-consed: a node is True, False or an integer >= 2 naming one
+    (atom, low, high) triple; atoms are ordered by their repr.  Within one
+    BDD object two boolean functions are equal iff their nodes are equal;
+    `digest` gives a form that can be compared between BDD objects."""
 
-    LIMIT = 200000
+    LIMIT = 400000
 
     def __init__(self):
         self.memo = {}
-        self.rk = {}
+        self.rk = {}            # atom -> rank string
+        self.nodes = {}         # id -> (atom, lo, hi)
+        self.unique = {}        # (rank, lo, hi) -> id
+        self.dg = {}
 
     def rank(self, atom):
         r = self.rk.get(atom)
@@ -25,7 +30,18 @@ class BDD(object):
         return r
 
     def mk(self, atom, lo, hi):
-        return lo if lo == hi else (atom, lo, hi)
+        if lo is hi or (lo == hi and type(lo) is type(hi)):
+            return lo
+        k = (self.rank(atom), lo if type(lo) is not bool else str(lo),
+             hi if type(hi) is not bool else str(hi))
+        n = self.unique.get(k)
+        if n is None:
+            n = len(self.nodes) + 2
+            self.unique[k] = n
+            self.nodes[n] = (atom, lo, hi)
+            if n > self.LIMIT:
+                raise _TooBig()
+        return n
 
     def neg(self, u):
         if u is True or u is False:
@@ -33,7 +49,8 @@ class BDD(object):
         k = ('neg', u)
         r = self.memo.get(k)
         if r is None:
-            r = self.memo[k] = self.mk(u[0], self.neg(u[1]), self.neg(u[2]))
+            a, lo, hi = self.nodes[u]
+            r = self.memo[k] = self.mk(a, self.neg(lo), self.neg(hi))
         return r
 
     def apply(self, op, u, v):
@@ -53,20 +70,22 @@ class BDD(object):
                 return u
         if u == v:
             return u
-        k = (op, u, v)
+        k = (op, u, v) if u < v else (op, v, u)
         r = self.memo.get(k)
         if r is not None:
             return r
         if len(self.memo) > self.LIMIT:
             raise _TooBig()
-        ru, rv = self.rank(u[0]), self.rank(v[0])
+        ua, ulo, uhi = self.nodes[u]
+        va, vlo, vhi = self.nodes[v]
+        ru, rv = self.rank(ua), self.rank(va)
         if ru == rv:
-            r = self.mk(u[0], self.apply(op, u[1], v[1]),
-                        self.apply(op, u[2], v[2]))
+            r = self.mk(ua, self.apply(op, ulo, vlo),
+                        self.apply(op, uhi, vhi))
         elif ru < rv:
-            r = self.mk(u[0], self.apply(op, u[1], v), self.apply(op, u[2], v))
+            r = self.mk(ua, self.apply(op, ulo, v), self.apply(op, uhi, v))
         else:
-            r = self.mk(v[0], self.apply(op, u, v[1]), self.apply(op, u, v[2]))
+            r = self.mk(va, self.apply(op, u, vlo), self.apply(op, u, vhi))
         self.memo[k] = r
         return r
 
@@ -82,8 +101,22 @@ class BDD(object):
                 r = self.apply(k[0], r, self.of(x))
             return r
         a, pol = sym.atom_of(k)
-        n = (a, False, True)
+        n = self.mk(a, False, True)
         return n if pol else self.neg(n)
+
+    def digest(self, u):
+        """A value that identifies the boolean function independently of
+        this BDD object (linear in the number of nodes)."""
+        if u is True or u is False:
+            return u
+        d = self.dg.get(u)
+        if d is None:
+            import hashlib
+            a, lo, hi = self.nodes[u]
+            d = self.dg[u] = hashlib.sha1(repr(
+                (self.rank(a), self.digest(lo), self.digest(hi))
+            ).encode()).hexdigest()
+        return d
 
 
 def _eq_atoms(sigs, eqs):
@@ -110,6 +143,38 @@ def _str_facts(bdd, sigs):
         for lit in conds:
             atoms.update(sym.bool_atoms(lit))
     care = True
+    # len(s.intersection([a, b])) is one of 0, 1, 2: when every value of
+    # that range is tested somewhere (0 also as emptiness), one test holds
+    from fractions import Fraction
+    tests = {}
+    for a in atoms:
+        if a[0] == 'truthy':
+            t = ('call', ('name', 'len'), (a[1],), ())
+            if _intersection_bound(t) is not None:
+                tests.setdefault(t, {})[0] = bdd.neg(bdd.of(a))
+        elif a[0] == 'cmp' and a[1] == '==':
+            for t, c in (a[2], a[2][::-1]):
+                if c[0] == 'num' and c[1].denominator == 1 \
+                        and _intersection_bound(t) is not None:
+                    tests.setdefault(t, {})[int(c[1])] = bdd.of(a)
+    # len(x) == k for k >= 1 implies x is non-empty
+    truthy = dict((a[1], a) for a in atoms if a[0] == 'truthy')
+    for a in sorted(atoms, key=repr):
+        if a[0] == 'cmp' and a[1] == '==':
+            for t, c in (a[2], a[2][::-1]):
+                if c[0] == 'num' and c[1] >= 1 and t[0] == 'call' \
+                        and t[1] == ('name', 'len') and len(t[2]) == 1 \
+                        and not t[3] and t[2][0] in truthy:
+                    care = bdd.apply('and', care, bdd.apply(
+                        'or', bdd.neg(bdd.of(a)),
+                        bdd.of(truthy[t[2][0]])))
+    for t in sorted(tests, key=repr):
+        n = _intersection_bound(t)
+        if all(k in tests[t] for k in range(n + 1)):
+            some = False
+            for k in range(n + 1):
+                some = bdd.apply('or', some, tests[t][k])
+            care = bdd.apply('and', care, some)
     for a in sorted(atoms, key=repr):
         if a[0] == 'truthy' and a[1][0] == 'call' and a[1][1][0] == 'attr' \
                 and a[1][1][2] in STR_PREDICATES and not a[1][2]:
@@ -118,6 +183,18 @@ def _str_facts(bdd, sigs):
                 care = bdd.apply('and', care, bdd.neg(bdd.apply(
                     'and', bdd.of(a), bdd.neg(bdd.of(subj)))))
     return care
+
+
+def _intersection_bound(term):
+    """n for len(<x>.intersection(<literal of n elements>)), else None."""
+    if term[0] == 'call' and term[1] == ('name', 'len') and len(term[2]) == 1 \
+            and not term[3]:
+        inner = term[2][0]
+        if inner[0] == 'call' and inner[1][0] == 'attr' \
+                and inner[1][2] == 'intersection' and len(inner[2]) == 1 \
+                and not inner[3] and inner[2][0][0] in ('list', 'tuple'):
+            return len(inner[2][0][1])
+    return None
 
 
 def _care(bdd, eqs):
@@ -141,6 +218,7 @@ def canon(sigs, bdd=None, care=None):
     conditions under which it is reached.  Independent of how a decision is
     spelled: nested ifs or one conjunction, elif chain or early returns, De
     Morgan forms, a predicate inlined or extracted, redundant tests."""
+    own = bdd is None
     bdd = bdd or BDD()
     if care is None:
         eqs = {}
@@ -154,6 +232,10 @@ def canon(sigs, bdd=None, care=None):
         by[(out, eff)] = bdd.apply('or', by.get((out, eff), False), cube)
     if care is not True:
         by = dict((oe, bdd.apply('and', f, care)) for oe, f in by.items())
+    if own:
+        # comparable with results computed through other BDD objects
+        return frozenset((oe, bdd.digest(f)) for oe, f in by.items()
+                         if f is not False)
     return frozenset((oe, f) for oe, f in by.items() if f is not False)
 
 
